@@ -177,6 +177,21 @@ def nontrivial(e):
     return any(l[6] != "none" or not str(l[4]).startswith("S") or not str(l[5]).startswith("S") or l[0] in ("realloc", "calloc", "strdup", "strndup") for l in e)
 
 
+def build_noguard(ctx):
+    """The same harness against a library built without guard bytes (CPPUTEST_DISABLE_MEM_CORRUPTION_CHECK): the property quantifies over both."""
+    import os, subprocess
+    from vlib.core import VERIF
+    extra = ["-DCPPUTEST_DISABLE_MEM_CORRUPTION_CHECK"]
+    lib = ctx.build_lib("asan", extra=extra)
+    exe = os.path.join(ctx.work, "blocks.noguard")
+    cmd = ["g++"] + ctx.cxxflags("asan") + extra + ["-I" + os.path.join(VERIF, "harness", "common"), os.path.join(VERIF, "harness", "blocks.cpp"),
+                                                    "-L" + lib, "-lCppUTestExt", "-lCppUTest", "-o", exe]
+    r = subprocess.run(cmd, stdin=subprocess.DEVNULL, stdout=subprocess.PIPE, stderr=subprocess.STDOUT, text=True)
+    if r.returncode != 0:
+        raise Infra("harness blocks does not compile against the working tree without guard bytes:\n" + r.stdout[-3000:])
+    return exe
+
+
 def run(ctx):
     quick = ctx.quick
     exe = ctx.build_harness("blocks", "asan")
@@ -187,6 +202,12 @@ def run(ctx):
     if ctx.replay:
         rp = json.load(open(ctx.replay))
         ex = [l.split("\t") for l in rp["script"]]
+        if (rp.get("meta") or {}).get("build") == "noguard":
+            exe2 = build_noguard(ctx)
+            K2 = lb.constants(ctx, exe2)
+            run_h = lambda s, l: ctx.run([exe2, s, l, str(lb.CAP)], timeout=900)
+            tcfg = ctx.write_cfg("Trace_LeakBlocks_noguard", lb.trace_cfg(K2, "TSpec", "INVARIANT TInv\nPOSTCONDITION Accepted"))
+            pcfg = ctx.write_cfg("Predict_LeakBlocks_noguard", lb.trace_cfg(K2, "PSpec", "INVARIANT Predict"))
         conform(ctx, "replay", [ex], run_h, "Trace_LeakBlocks", tcfg, pcfg, lb.key_fn, meta=rp.get("meta"))
         return ctx.finish("replay of one recorded execution", 1)
 
@@ -208,8 +229,8 @@ def run(ctx):
 
     distinct = set()
     # ---- leg 2: behaviours generated by TLC from the specification, executed through the real entry points
-    gens = [("bfs", dict(slots="0, 1", small="5", big="BigFew", pairs="PairsFew", strlens="2", strns="NsFew", vals="", faults='"none", "under"',
-                         variants='"plain"', eps='"newarr", "malloc"', maxoff=0, D=2 if quick else 3), None, None),
+    gens = [("bfs", dict(slots="0, 1", small="5", big="BigFew" if quick else "BigSome", pairs="PairsFew" if quick else "PairsSome", strlens="2", strns="NsFew", vals="",
+                         faults='"none", "under"', variants='"plain"', eps='"newarr", "malloc"' if quick else '"new", "newarrnt", "malloc"', maxoff=0, D=2), None, None),
             ("sim", dict(slots="0, 1, 2", small="0, 5, 8, 100, 4200, 5000", big="BigSome", pairs="PairsSome", strlens="0, 7, 300", strns="NsFew", vals="",
                          faults='"none", "under"', variants='"plain", "wrap"',
                          eps='"new", "newnt", "newarrdbg", "malloc"', maxoff=0, D=16), 15 if quick else 300, 22)]
@@ -219,6 +240,8 @@ def run(ctx):
         execs = [lb.beh_to_exec(h) for h in gr.beh]
         if not execs:
             raise Infra("no behaviours generated by " + lab)
+        if lab == "bfs":
+            bfs_execs = execs
         ctx.sample({"source": "TLC " + lab, "execution": lb.show(execs[ctx.rng.randrange(len(execs))])})
         for i in range(0, len(execs), 8000):
             conform(ctx, "%s%d" % (lab, i // 8000), execs[i:i + 8000], run_h, "Trace_LeakBlocks", tcfg, pcfg, lb.key_fn, tlc_timeout=1800)
@@ -246,6 +269,20 @@ def run(ctx):
     ctx.evaluations += sum(len(e) for e in rnd) + sum(len(e) for e in nf)
     distinct.update(json.dumps(e[:40]) for e in rnd)
     distinct.update(json.dumps(e) for e in nf)
+    # ---- the build without guard bytes: TLC's exhaustive behaviours, the sweeps (thorough: all; quick: every 4th) and random histories again
+    exe2 = build_noguard(ctx)
+    K2 = lb.constants(ctx, exe2)
+    if K2["guard"] != 0:
+        raise Infra("the build without guard bytes still reports guard bytes: %s" % K2)
+    run_h2 = lambda s, l: ctx.run([exe2, s, l, str(lb.CAP)], timeout=900)
+    tcfg2 = ctx.write_cfg("Trace_LeakBlocks_noguard", lb.trace_cfg(K2, "TSpec", "INVARIANT TInv\nPOSTCONDITION Accepted"))
+    pcfg2 = ctx.write_cfg("Predict_LeakBlocks_noguard", lb.trace_cfg(K2, "PSpec", "INVARIANT Predict"))
+    ng = (bfs_execs if not quick else bfs_execs[::3]) + (sw if not quick else sw[::4]) + rnd
+    for i in range(0, len(ng), 4000):
+        conform(ctx, "noguard%d" % (i // 4000), ng[i:i + 4000], run_h2, "Trace_LeakBlocks", tcfg2, pcfg2, lambda *a: "noguard:" + lb.key_fn(*a), tlc_timeout=1800,
+                meta={"build": "noguard"})
+    ctx.evaluations += sum(len(e) for e in ng)
+    ctx.notes["configurations"] = {"with guard bytes": K, "without guard bytes (CPPUTEST_DISABLE_MEM_CORRUPTION_CHECK)": K2}
     return ctx.finish(
         rule="executions = TLC-generated behaviours of LeakBlocks with fault points (exhaustive to depth D on 2 slots; simulation to depth 16 on 4 slots) + "
              "systematic sweeps (every size 0..%d and powers of two +-2 for every entry point; SIZE_MAX-k for k<64 and 2^e+-2; calloc pairs around the "
@@ -259,4 +296,6 @@ def run(ctx):
                      "slot capacity are not generated (whether they fit depends on the bookkeeping overhead)",
                      "out-of-memory is simulated at the TestMemoryAllocator seam (an allocator returning NULL), as CppUTest does itself; the default allocator's "
                      "checkedMalloc turns a NULL from malloc into a test failure instead",
+                     "both layouts are built and run: with guard bytes (inline record for new/new[], separate record for malloc) and without "
+                     "(CPPUTEST_DISABLE_MEM_CORRUPTION_CHECK: record always separate)",
                      "memory safety of the calls is observed by ASan/UBSan, the arena's red zones and the shadow copies, on the executions run"])
